@@ -39,7 +39,7 @@ func main() {
 		for _, id := range rules.IDs() {
 			p := rules.Get(id)
 			fmt.Printf("%s: %d rules\n", id, len(p.Rules))
-			for _, r := range p.Rules {
+			for _, r := range rules.ResolvedRules(p) {
 				fmt.Printf("   %-9s %s\n", r.ID, r.Doc)
 			}
 		}
@@ -76,7 +76,7 @@ func (c cfgSpec) name() string {
 
 func scopesOf(prop *rules.Property, tier string) map[string]bool {
 	out := map[string]bool{}
-	for _, r := range prop.Rules {
+	for _, r := range rules.ResolvedRules(prop) {
 		if r.Tier == "thorough" && tier != "thorough" {
 			continue
 		}
@@ -268,7 +268,7 @@ func cmdExplain(args []string) int {
 	for _, o := range v.Violations {
 		doc := ""
 		if prop != nil {
-			for _, r := range prop.Rules {
+			for _, r := range rules.ResolvedRules(prop) {
 				if r.ID == o.Rule {
 					doc = r.Doc
 				}
